@@ -409,6 +409,24 @@ def execute(case):
                 if h.db.storage.lastTransaction() != last:
                     out.fail((PROPERTY, 'historical-write', 'stored'), 'a refused historical commit stored a transaction')
                     return done(out, nt)
+                # a change that is taken back before the commit (the connection has joined the transaction, nothing is
+                # left to write): refused or not, nothing reaches the storage
+                o_ = hc.root()[name]
+                o_.v = -7
+                if case.get('junk', len(name)) % 2:
+                    o_._p_changed = False
+                else:
+                    o_._p_invalidate()
+                try:
+                    tm_h.commit()
+                except (ReadOnlyHistoryError, ReadOnlyError):
+                    tm_h.abort()
+                out.label('historical-change-taken-back')
+                if h.db.storage.lastTransaction() != last:
+                    out.fail((PROPERTY, 'historical-write', 'stored', 'empty-transaction'),
+                             'a commit through open(%s=%r) after its only change had been taken back stored a transaction' % (kind, arg))
+                    return done(out, nt)
+                hc.cacheMinimize()
                 if h.multi and 'x' in exp:
                     # a write to the object of the other database reached through the historical connection
                     last = h.last_tid()
